@@ -11,71 +11,88 @@ lock protocol is not proven here (see DESIGN, partial): it is monitored under wa
 the lock-order deadlock that existed on acyclic graphs is covered by a regression scenario.
 -/
 namespace C09
-open RedoModel.TokLoop
+open RedoModel.TokLoop RedoModel.RunTok
 
 /-- With the repaired event loop the process holds at most one token between scheduler steps. -/
 theorem at_most_one (s s' : LS) (e : LEv) (h : s.my ≤ 1) (hs : lstep true s e = .ok s') : s'.my ≤ 1 := by
-  cases e <;> simp only [lstep] at hs
+  have hx := lstep_live hs
+  cases e <;> simp only [lstep, lstepG, hx, Bool.false_eq_true, ↓reduceIte] at hs
   · -- childExit
     split at hs
     · cases hs
     · cases hs
-      split <;> simp only [keepOne] <;> split <;> simp [release] <;> omega
-  · split at hs
+      split <;> simp [keepOne_my] <;> omega
+  · -- childExitEat
+    split at hs
+    · cases hs
+    · split at hs <;> cases hs
+      exact h
+  · -- tokenRead
+    split at hs
     · cases hs
     · cases hs
       rename_i hc
       simp at hc
       simp; omega
-  · split at hs
+  · -- cheat
+    split at hs
     · cases hs; simp
     · cases hs
-  · split at hs
+  · -- start
+    split at hs
     · cases hs
     · split at hs
       · cases hs
       · cases hs; simp
-  · split at hs
+  · -- releaseMine
+    split at hs
     · cases hs
     · cases hs; simp [release]; omega
-  · by_cases h1 : s.my ≥ 1
-    · simp only [keepOne, h1, if_true] at hs
-      split at hs <;> cases hs <;> simp [release] <;> omega
-    · simp only [keepOne, h1, if_false] at hs
-      split at hs <;> cases hs <;> (try simp [release]) <;> omega
+  · -- waitAll
+    split at hs <;> cases hs <;> simp [release, keepOne_my] <;> omega
+  · -- exit
+    split at hs
+    · cases hs
+    · split at hs <;> cases hs
+      simp [keepOne_my]; omega
 
-/-- No Rust assertion on the token counter can fail: for every sequence of scheduler events, in
-every order (every subset of {child exits, token arrivals} between two steps included). -/
-theorem no_panic (es : List LEv) (s : LS) (h : s.my ≤ 1) : lrun true s es ≠ .panic := by
+/-- The invariant of the repaired loop: at most one token, at most one cheat, and a cheat is always backed by the token
+in hand or by a running child. -/
+theorem backed_step (s s' : LS) (e : LEv) (h : Backed s) (hs : lstep true s e = .ok s') : Backed s' :=
+  lstep_backed h hs
+
+/-- No Rust assertion on the token counter can fail — neither the one of `start` nor the two of
+`do_force_return_tokens` — for every sequence of scheduler events, in every order (every subset of {child exits,
+IOUs on the cheat pipe, token arrivals} between two steps included). -/
+theorem no_panic (es : List LEv) (s : LS) (h : Backed s) : lrun true s es ≠ .panic := by
   induction es generalizing s with
-  | nil => simp [lrun]
+  | nil => intro hp; cases hp
   | cons e es ih =>
-    simp only [lrun]
-    cases hst : lstep true s e with
-    | ok s' => exact ih s' (at_most_one s s' e h hst)
-    | disabled => simp
-    | panic =>
-      exfalso
-      cases e <;> simp only [lstep] at hst
-      · split at hst <;> cases hst
-      · split at hst <;> cases hst
-      · split at hst <;> cases hst
-      · split at hst
-        · cases hst
-        · split at hst
-          · rename_i h0 h1
-            omega
-          · cases hst
-      · split at hst <;> cases hst
-      · by_cases h1 : s.my ≥ 1
-        · simp only [keepOne, h1, if_true] at hst
-          split at hst <;> cases hst
-        · simp only [keepOne, h1, if_false] at hst
-          split at hst <;> cases hst
+    intro hp
+    simp only [lrun, lrunG] at hp
+    cases hl : lstepG true true s e with
+    | ok s' =>
+      rw [hl] at hp
+      exact ih s' (backed_step s s' e h hl) hp
+    | disabled => rw [hl] at hp; cases hp
+    | panic => exact lstep_no_panic (e := e) h hl
+
+/-- What the process leaves with: never more cheats than tokens, at most one of each — the three exit states
+`(1,0)`, `(1,1)`, `(0,0)` that `do_force_return_tokens` turns into "token kept", "token destroyed, one IOU" and
+"one IOU" (the Tokens acceptor, Props/C08, checks that each leaves exactly one token to the job). -/
+theorem exit_states (s s' : LS) (h : Backed s) (hs : lstep true s .exit = .ok s') :
+    s'.cheats ≤ s'.my ∧ s'.my ≤ 1 ∧ s'.exited = true := by
+  obtain ⟨t, h1, h2, h3, h4, _⟩ := lstep_exit h (lstep_live hs)
+  rw [h1] at hs; cases hs
+  exact ⟨h2, h3, h4⟩
+
+/-- After the exit nothing else happens. -/
+theorem nothing_after_exit (s : LS) (e : LEv) (h : s.exited = true) : lstep true s e = .disabled :=
+  lstep_exited e h
 
 /-- From the initial state of a process (one token) nothing panics. -/
 theorem no_panic_from_start (es : List LEv) : lrun true {} es ≠ .panic :=
-  no_panic es {} (by decide)
+  no_panic es {} (by simp [Backed])
 
 /-- Witness for the repaired defect `tokenReadUnconditional`: with the pinned event loop, two jobs
 and a child exit noticed in the same wake-up as a token arrival end in the `start` assertion. -/
@@ -85,5 +102,27 @@ theorem token_read_panic_witness :
 /-- The same sequence is impossible (not enabled) once the read is guarded. -/
 theorem token_read_fixed :
     lrun true {} [.start, .tokenRead, .start, .childExit, .tokenRead, .start] = .disabled := by decide
+
+/-- Witness for the repaired defect `cheaterEatsForeignIou`: with the pinned child-exit branch, a process that gave
+its token up (lock wait), synthesised one, gave it to a child and at the child's exit took somebody else's IOU is left
+with `(0, 1)` and fails the first assertion of `do_force_return_tokens`. -/
+theorem foreign_iou_panic_witness :
+    lrunG true false {} [.releaseMine, .cheat, .start, .childExitEat, .exit] = .panic := by decide
+
+/-- With the repaired branch that sequence is not a behaviour (the IOU is left alone while the own cheat is
+outstanding), and the same history with the cheat settled by the child's token ends in the exit state `(0, 0)`. -/
+theorem foreign_iou_fixed :
+    lrun true {} [.releaseMine, .cheat, .start, .childExitEat, .exit] = .disabled ∧
+    lrun true {} [.releaseMine, .cheat, .start, .childExit, .exit]
+      = .ok { my := 0, cheats := 0, running := 0, exited := true } := by decide
+
+/-- `Backed` is not vacuous, and it is needed: from `(0, 1)` with nothing running the exit panics. -/
+example : Backed { my := 1, cheats := 1, running := 0 } ∧ Backed { my := 0, cheats := 1, running := 2 } ∧
+    lstep true { my := 0, cheats := 1, running := 0 } .exit = .panic := by
+  refine ⟨by simp [Backed], by simp [Backed], by decide⟩
+
+/-- An error exit with children still running: their tokens are re-created first (the first one settles the cheat). -/
+example : lstep true { my := 0, cheats := 1, running := 2 } .exit
+    = .ok { my := 1, cheats := 0, running := 2, exited := true } := by decide
 
 end C09
